@@ -40,6 +40,7 @@ mod verif_xc_writer_history {
   use super::*;
   use crate::{
     dds::{statusevents::sync_status_channel, with_key::datawriter::WriteOptionsBuilder},
+    structure::rpc::SampleIdentity,
     messages::submessages::{
       elements::serialized_payload::SerializedPayload, submessages::AckNack,
     },
@@ -124,6 +125,7 @@ mod verif_xc_writer_history {
     history: Hist,
     limits: Rl,
     stamps: Vec<St>, // source timestamps of the writes (empty: none)
+    order: usize,    // which order of the WriteOptionsBuilder setters in use
     n: i64,
     readers: Vec<Rd>,
     more: i64,
@@ -250,16 +252,53 @@ mod verif_xc_writer_history {
     }
     v
   }
-  // sample 2 is addressed to one particular reader, all others to everybody
-  fn options(stamps: &[St], i: i64) -> WriteOptions {
-    let mut b = WriteOptionsBuilder::new();
-    if i == 2 {
-      b = b.to_single_reader(reader_guid(1));
+  // the WriteOptions of a write, built through the real builder: the setters in use are applied in the
+  // order-th of all their orders (what the options must say is known from the scenario, not from here)
+  #[derive(Clone, Copy, Debug)]
+  enum Setter {
+    Single(GUID),
+    Stamp(Timestamp),
+    Related(SampleIdentity),
+  }
+  fn orders(k: usize) -> Vec<Vec<usize>> {
+    if k == 0 {
+      return vec![vec![]];
     }
-    if let Some(ts) = source_timestamp(stamps, i) {
-      b = b.source_timestamp(ts);
+    let mut out = vec![];
+    for p in orders(k - 1) {
+      for pos in 0..=p.len() {
+        let mut q = p.clone();
+        q.insert(pos, k - 1);
+        out.push(q);
+      }
+    }
+    out
+  }
+  fn build_options(setters: &[Setter], order: usize) -> WriteOptions {
+    let perms = orders(setters.len());
+    let mut b = WriteOptionsBuilder::new();
+    for k in &perms[order % perms.len()] {
+      b = match setters[*k] {
+        Setter::Single(g) => b.to_single_reader(g),
+        Setter::Stamp(ts) => b.source_timestamp(ts),
+        Setter::Related(si) => b.related_sample_identity(si),
+      };
     }
     b.build()
+  }
+  // sample 2 is addressed to one particular reader, all others to everybody
+  fn single_reader(i: i64) -> Option<GUID> {
+    if i == 2 { Some(reader_guid(1)) } else { None }
+  }
+  fn options(c: &Case, i: i64) -> WriteOptions {
+    let mut setters = vec![];
+    if let Some(g) = single_reader(i) {
+      setters.push(Setter::Single(g));
+    }
+    if let Some(ts) = source_timestamp(&c.stamps, i) {
+      setters.push(Setter::Stamp(ts));
+    }
+    build_options(&setters, c.order)
   }
   fn acknack(reader: GUID, writer: GUID, base: i64) -> AckSubmessage {
     AckSubmessage::AckNack(AckNack {
@@ -274,13 +313,13 @@ mod verif_xc_writer_history {
   // reading taken inside (assumption valid.hist.clock: readings strictly increase), so wait for the
   // clock to tick first and bracket the call with two readings.  Returns false if the wall clock was
   // seen stepping back (the case is then redone) - whatever key the writer actually used.
-  fn write(w: &mut Writer, stamps: &[St], i: i64, last_wall: &mut Timestamp) -> bool {
+  fn write(w: &mut Writer, c: &Case, i: i64, last_wall: &mut Timestamp) -> bool {
     let mut before = Timestamp::now();
     while before <= *last_wall {
       std::hint::spin_loop();
       before = Timestamp::now();
     }
-    w.insert_to_history_buffer(payload(i), options(stamps, i), sn(i));
+    w.insert_to_history_buffer(payload(i), options(c, i), sn(i));
     let after = Timestamp::now();
     *last_wall = std::cmp::max(after, before);
     after >= before
@@ -402,9 +441,16 @@ mod verif_xc_writer_history {
             c, round, s, cc.sequence_number, s, after
           );
           assert!(
-            cc.sequence_number == sn(s) && cc.data_value == payload(s) && cc.write_options == options(&c.stamps, s),
-            "XC-WITNESS label=hist.get {:?} round={}: get_by_sn({}) returned sample {:?} with {:?} / {:?}, written for {} were {:?} / {:?}",
-            c, round, s, cc.sequence_number, cc.data_value, cc.write_options, s, payload(s), options(&c.stamps, s)
+            cc.sequence_number == sn(s) && cc.data_value == payload(s),
+            "XC-WITNESS label=hist.get {:?} round={}: get_by_sn({}) returned sample {:?} with {:?}, written for {} was {:?}",
+            c, round, s, cc.sequence_number, cc.data_value, s, payload(s)
+          );
+          let got = (cc.write_options.to_single_reader(), cc.write_options.source_timestamp(), cc.write_options.related_sample_identity());
+          let want = (single_reader(s), source_timestamp(&c.stamps, s), None::<SampleIdentity>);
+          assert!(
+            got == want,
+            "XC-WITNESS label=push.options.order {:?} round={}: sample {} is stored with (to_single_reader, source_timestamp, related_sample_identity) = {:?}, the application set {:?}",
+            c, round, s, got, want
           );
         }
       }
@@ -417,7 +463,7 @@ mod verif_xc_writer_history {
     let mut last_ts = Timestamp::ZERO;
     let mut model: Vec<(GUID, Rd)> = vec![];
     for i in 1..=c.n {
-      if !write(&mut w, &c.stamps, i, &mut last_ts) {
+      if !write(&mut w, c, i, &mut last_ts) {
         return false;
       }
     }
@@ -428,7 +474,7 @@ mod verif_xc_writer_history {
 
     let written = c.n + c.more;
     for i in c.n + 1..=written {
-      if !write(&mut w, &c.stamps, i, &mut last_ts) {
+      if !write(&mut w, c, i, &mut last_ts) {
         return false;
       }
     }
@@ -507,7 +553,7 @@ mod verif_xc_writer_history {
       for readers in &sets {
         for more in 0..=2 {
           for ev in events(!readers.is_empty()) {
-            let c = Case { history, limits, stamps: vec![], n, readers: readers.clone(), more, ev };
+            let c = Case { history, limits, stamps: vec![], order: 0, n, readers: readers.clone(), more, ev };
             run(&h, &c);
             cases += 1;
           }
@@ -566,7 +612,7 @@ mod verif_xc_writer_history {
             if readers.is_empty() && ev != Ev::Nothing {
               continue;
             }
-            let c = Case { history, limits, stamps: vec![], n, readers: readers.clone(), more, ev };
+            let c = Case { history, limits, stamps: vec![], order: 0, n, readers: readers.clone(), more, ev };
             run(&h, &c);
             cases += 1;
           }
@@ -599,15 +645,17 @@ mod verif_xc_writer_history {
                 if readers.is_empty() && ev != Ev::Nothing {
                   continue;
                 }
-                let c = Case { history, limits: Rl::Absent, stamps: stamps.clone(), n, readers: readers.clone(), more, ev };
-                run(&h, &c);
-                cases += 1;
+                for order in 0..2 {
+                  let c = Case { history, limits: Rl::Absent, stamps: stamps.clone(), order, n, readers: readers.clone(), more, ev };
+                  run(&h, &c);
+                  cases += 1;
+                }
               }
             }
           }
         }
       }
     }
-    assert!(cases > 10_000, "vacuity guard: only {} scenarios enumerated", cases);
+    assert!(cases > 20_000, "vacuity guard: only {} scenarios enumerated", cases);
   }
 }
